@@ -6,7 +6,7 @@ RULE = ('rrect correspondence (rr_all = confine_radii + contains() bitmap over b
         '(i) EXHAUSTIVE equal corner radii: sizes 0..12 x 0..12, radii 0..8 x 0..8 (13 689 shapes); (ii) diagonal / adjacent corner pairs swept '
         'exhaustively (all four components 0..8) on selected sizes, the other corners zero; (iii) random unequal radii 0..8 on sizes 0..12; '
         '(iv) random sizes up to 60 with radii up to 200 (confined), thin shapes over-represented; (v) single points on shapes placed up to +-2^20 '
-        'with sizes up to 10^4. rrect search: p_rr_points (points() == row-major filter of contains() over box+3; contains false outside the box) on the same '
+        'with sizes up to 10^4. rrect search: p_rr_builder (every CornerRadiiBuilder setter alone / chained / on a full builder, all, top/right/bottom/left, From<&CornerRadii>, CornerRadii::new, with_equal_corners, new, against struct literals); p_rr_points (points() == row-major filter of contains() over box+3; contains false outside the box) on the same '
         'distributions; p_rr_sweep (implementation only): for EVERY size 0..12 x 0..12 every combination of the 8 radius components over {0,1,2} '
         '(quick; {0,1,2,3} and {0,1,3,5,8} on more sizes in thorough): points == filter contains, confined radii fit, rows/columns contiguous.')
 PARTIAL = []
@@ -69,6 +69,10 @@ def search(tier, rng):
             yield J('p_rr_sweep', w, h, 2)
             yield J('p_rr_sweep', w, h, 3)
     n = 8000 if tier == 'quick' else 200000
+    # construction API (CornerRadiiBuilder, CornerRadii::new, with_equal_corners) against struct literals
+    yield J('p_rr_builder', 3, -2, 20, 30, 1, 2, 3, 4, 5, 6, 7, 8)
+    for _ in range(n // 4):
+        yield J('p_rr_builder', *(small(rng) if rng.random() < 0.5 else medium(rng)))
     for _ in range(n):
         yield J('p_rr_points', *small(rng))
     for _ in range(n // 2):
